@@ -17,6 +17,8 @@ except ImportError:      # pragma: no cover
 WS_ALL = [' ', '\t', '\n', '\x0b', '\x0c', '\r', '\x1c', '\x1d', '\x1e', '\x1f', '\x85', '\xa0', ' ', '　']
 DIG_ASCII = list('0123456789')
 DIG_OTHER = ['٣', '５']          # ARABIC-INDIC THREE, FULLWIDTH FIVE
+# non-ASCII characters that case-fold onto an ASCII letter (what re.IGNORECASE accepts for it)
+FOLDS_ONTO = {'s': ['\u017f'], 'k': ['\u212a'], 'i': ['\u0130', '\u0131']}
 
 
 def class_chars(items, ascii_only=False):
@@ -55,6 +57,10 @@ class Gen(object):
         self.maxrep = maxrep
         self.counters = {}
         self.ws_mode = ws_mode
+        self.flags = getattr(pattern, 'flags', 0) if hasattr(pattern, 'pattern') else 0
+        self.groups_set = set()
+        self.icase = False
+        self.unsupported = set()
 
     def _cycle(self, node_id, n):
         c = self.counters.get(node_id, 0)
@@ -68,7 +74,11 @@ class Gen(object):
         for idx, (op, av) in enumerate(tree):
             nid = path + (idx,)
             if op is sc.LITERAL:
-                out.append(chr(av))
+                ch = chr(av)
+                if self.icase and ch.isalpha():
+                    forms = [ch.lower(), ch.upper()] + FOLDS_ONTO.get(ch.lower(), [])
+                    ch = forms[self._cycle(nid, len(forms))]
+                out.append(ch)
             elif op is sc.NOT_LITERAL:
                 out.append('a' if chr(av) != 'a' else 'b')
             elif op is sc.ANY:
@@ -84,8 +94,30 @@ class Gen(object):
                 k = self._cycle(nid, len(alts))
                 self._gen(alts[k], out, nid + (k,))
             elif op is sc.SUBPATTERN:
+                # (group number, flags switched on, flags switched off, items): a scoped (?i:...) makes the literals inside
+                # match their other case as well - including the non-ASCII characters that fold onto them
+                was = self.icase
+                if av[1] & re.IGNORECASE:
+                    self.icase = True
+                if av[2] & re.IGNORECASE:
+                    self.icase = False
                 self._gen(av[3], out, nid)
-            elif op in (sc.MAX_REPEAT, sc.MIN_REPEAT):
+                self.icase = was
+                if av[0] is not None:
+                    self.groups_set.add(av[0])
+            elif op is sc.GROUPREF_EXISTS:
+                # (?(n)yes|no): which branch applies depends on whether group n took part in THIS pattern's numbering -
+                # a conditional pasted into another pattern by a textual join refers to another group there
+                grp, yes, no = av
+                if grp in self.groups_set:
+                    self._gen(yes, out, nid + (0,))
+                elif no is not None:
+                    self._gen(no, out, nid + (1,))
+            elif getattr(sc, 'ATOMIC_GROUP', None) is not None and op is sc.ATOMIC_GROUP:
+                self._gen(av, out, nid)
+            elif op in (sc.ASSERT, sc.ASSERT_NOT):
+                pass            # look-around: nothing is consumed (the sample may then simply not match)
+            elif op in (sc.MAX_REPEAT, sc.MIN_REPEAT) or op is getattr(sc, 'POSSESSIVE_REPEAT', None):
                 lo, hi, sub = av
                 if hi is sc.MAXREPEAT or hi > lo + self.maxrep:
                     hi = lo + self.maxrep
@@ -98,10 +130,12 @@ class Gen(object):
             elif op is sc.GROUPREF:
                 pass
             else:
-                raise NotImplementedError(op)
+                self.unsupported.add(str(op))      # a construct this generator does not know: skipped, never a crash
 
     def one(self):
         out = []
+        self.groups_set = set()
+        self.icase = bool(self.flags & re.IGNORECASE)
         self._gen(self.tree, out, ())
         return ''.join(out)
 
@@ -137,8 +171,16 @@ def literal_alphabet(patterns):
                     walk(alt)
             elif op is sc.SUBPATTERN:
                 walk(av[3])
-            elif op in (sc.MAX_REPEAT, sc.MIN_REPEAT):
+            elif op in (sc.MAX_REPEAT, sc.MIN_REPEAT) or op is getattr(sc, 'POSSESSIVE_REPEAT', None):
                 walk(av[2])
+            elif op is sc.GROUPREF_EXISTS:
+                walk(av[1])
+                if av[2] is not None:
+                    walk(av[2])
+            elif op in (sc.ASSERT, sc.ASSERT_NOT):
+                walk(av[1])
+            elif getattr(sc, 'ATOMIC_GROUP', None) is not None and op is sc.ATOMIC_GROUP:
+                walk(av)
     for p in patterns:
         walk(sp.parse(p.pattern if hasattr(p, 'pattern') else p))
     letters = set(c for c in chars if c.isalpha())
